@@ -10,7 +10,7 @@
 From Coq Require Import ZArith List Bool.
 Import ListNotations.
 From Cedar Require Import Lang.Value Impl.Like Lang.Expr Impl.Scanner Impl.Tokenizer Lang.Cursor Impl.Quote Impl.Parser Impl.Printer Lang.RoundTrip
-  Impl.Eval Impl.IPAddr Proofs.ScannerProofs Proofs.ParserRoundTrip Proofs.LexRender Proofs.TextPipeline Proofs.NormMeaning.
+  Impl.Eval Impl.IPAddr Proofs.ScannerProofs Proofs.ParserRoundTrip Impl.IPPrint Proofs.LexRender Proofs.TextPipeline Proofs.NormMeaning Proofs.IPProofs.
 Local Open Scope Z_scope.
 
 Section C08.
@@ -70,6 +70,22 @@ Theorem C08_same_meaning : forall set_order, (forall l, Permutation.Permutation 
     bool_eval en (policy_to_expr (norm_policy set_order print_ip p)) = bool_eval en (policy_to_expr p).
 Proof. exact policy_norm_same_outcome. Qed.
 
+(* with the MODELLED ipaddr printer (Impl/IPPrint.v, proved plain and to round-trip in Proofs/IPProofs.v) the hypotheses about ip printing
+   are discharged: the streamed text round trip and the same-meaning theorem hold with no assumption about net/netip *)
+Theorem C08_streamed_text_roundtrip_ip : forall is_printable is_gext set_order sep ps, all_ws sep ->
+  Forall (fun ap => policy_ok set_order (fst ap) (snd ap) = true) ps ->
+  exists f0, forall f b r, (f0 <= f)%nat -> (4 <= b)%nat -> no_fail r -> (List.length (r_sched r) + 2 <= f)%nat ->
+    r_rest r = render (doc_items is_printable is_gext set_order print_ip no_extra sep ps) ->
+    exists ts, tokenize f b r = Some (Some ts) /\
+      exists res last, p_policies f ts [] = POk res [last] /\ t_type last = TEOF /\
+        map (fun pp => (pp_annots pp, pp_policy pp)) res = map (fun ap => (fst ap, norm_policy set_order print_ip (snd ap))) ps.
+Proof. exact (fun ip ig so => C08_streamed_text_roundtrip ip ig so print_ip print_ip_plain_concrete). Qed.
+
+Theorem C08_same_meaning_ip : forall set_order, (forall l, Permutation.Permutation (set_order l) (seq 0 (List.length l))) ->
+  forall en p, norm_env_wf en -> policy_lit_ok ip_ok p = true ->
+    bool_eval en (policy_to_expr (norm_policy set_order print_ip p)) = bool_eval en (policy_to_expr p).
+Proof. exact (fun so H => C08_same_meaning so H print_ip ip_ok ip_roundtrip_concrete). Qed.
+
 Theorem C08_same_meaning_expr : forall set_order, (forall l, Permutation.Permutation (set_order l) (seq 0 (List.length l))) ->
   forall print_ip ip_ok, (forall v6 a p, ip_ok v6 a p = true -> parse_ip (print_ip v6 a p) = Some (v6, a, p)) ->
   forall en e, norm_env_wf en -> lit_ok ip_ok e = true -> res_equiv (eval en (norm set_order print_ip e)) (eval en e).
@@ -82,3 +98,5 @@ Print Assumptions C08_text_roundtrip.
 Print Assumptions C08_streamed_text_roundtrip.
 Print Assumptions C08_same_meaning.
 Print Assumptions C08_same_meaning_expr.
+Print Assumptions C08_streamed_text_roundtrip_ip.
+Print Assumptions C08_same_meaning_ip.
